@@ -1,2 +1,5 @@
 import QecVerif.Props.C07.Basic
 import QecVerif.Props.C07.Planar
+import QecVerif.Props.C07.Toric
+import QecVerif.Props.C07.RotatedToric
+import QecVerif.Props.C07.RotatedPlanar
